@@ -49,9 +49,9 @@ Definition p_op : parser op := fun ts =>
         | _ => None end
       else if tok_is k_REGOUT k then
         match r with
-        | mt :: id :: a :: r' =>
-            match unhex mt, tok_nat id, tok_bool a with
-            | Some m, Some i, Some b => Some (RegOut m i b, r') | _, _, _ => None end
+        | mt :: id :: a :: am :: r' =>
+            match unhex mt, tok_nat id, tok_bool a, tok_bool am with
+            | Some m, Some i, Some b, Some c => Some (RegOut m i b c, r') | _, _, _, _ => None end
         | _ => None end
       else if tok_is k_REGEV k then
         match r with
